@@ -10,17 +10,18 @@
 (* reset draws are not logged: they are inferred.                               *)
 EXTENDS Integers, Sequences, FiniteSets, TLC, TLCExt, Json, IOUtils
 
-VARIABLES cfg, es, ps, ring, hist, phase, iters, inphase, tid, l, rej
+VARIABLES cfg, es, ps, ring, hist, phase, iters, inphase, stats, tid, l, rej
 O == INSTANCE OffPolicy
 M == INSTANCE MDP
-vars == <<cfg, es, ps, ring, hist, phase, iters, inphase, tid, l, rej>>
+S == INSTANCE EpisodeStats
+vars == <<cfg, es, ps, ring, hist, phase, iters, inphase, stats, tid, l, rej>>
 
 Traces == JsonDeserialize(IOEnv.TRACE_FILE)
 Tr == Traces[tid].events
 ICfg(t) == Traces[t].cfg
 
 TInit == /\ TLCSet(1, {}) /\ TLCSet(2, {})
-         /\ tid \in 1..Len(Traces) /\ l = 1 /\ rej = <<>>
+         /\ tid \in 1..Len(Traces) /\ l = 1 /\ rej = <<>> /\ stats = S!InitStats
          /\ \E s0 \in {ICfg(tid).Init[j] : j \in 1..Len(ICfg(tid).Init)} : O!Init(ICfg(tid), s0)
 
 RowClauses(ev) ==
@@ -39,18 +40,23 @@ SnapClauses(ev) ==
    PositionIsWarmupPlusIterations |-> ev.pos = cfg.lstarts + ev.k * cfg.nsteps,
    CapacityIsPerEnvironmentShare |-> Traces[tid].cap = O!Cap,
    CarriedEnvStateMatches        |-> es = [s |-> ev.s, cnt |-> ev.cnt],
-   CarriedPolicyStateMatches     |-> ps = ev.ps]
+   CarriedPolicyStateMatches     |-> ps = ev.ps,
+   StatsStepCountIsCumulative    |-> ev.stats.step = stats.step,
+   StatsEpisodeAccumulatorsSinceLastDone |-> ev.stats.ret = stats.ret /\ ev.stats.len = stats.len /\ ev.stats.latch = stats.latch,
+   StatsAveragesUpdatedOnlyAtEpisodeEnds |-> ev.stats.avgR = stats.avgR /\ ev.stats.avgL = stats.avgL]
 Failed(ev) == LET c == IF ev.ev = "row" THEN RowClauses(ev) ELSE SnapClauses(ev) IN {n \in DOMAIN c : ~c[n]}
 
 TRow == /\ l >= 1 /\ l <= Len(Tr) /\ Tr[l].ev = "row" /\ Failed(Tr[l]) = {}
         /\ \E s0 \in M!InitSet : IF phase = "warm" THEN O!WarmStep(Tr[l].act, s0) ELSE O!RunStep(Tr[l].act, s0)
+        \* the logging callback is told this step's stored reward and done flag (warm-up steps included)
+        /\ LET f == O!StepFacts(es, Tr[l].act) IN stats' = S!NextStats(stats, f.so.rew, f.done, cfg.an)
         /\ l' = l + 1 /\ UNCHANGED <<tid, rej>>
 TSnap == /\ l >= 1 /\ l <= Len(Tr) /\ Tr[l].ev = "snap" /\ Failed(Tr[l]) = {}
          /\ IF phase = "warm" THEN O!EndWarm ELSE O!EndIter
-         /\ l' = l + 1 /\ UNCHANGED <<tid, rej>>
+         /\ l' = l + 1 /\ UNCHANGED <<tid, rej, stats>>
 TReject == /\ l >= 1 /\ l <= Len(Tr) /\ Failed(Tr[l]) # {}
            /\ rej' = <<l, Failed(Tr[l])>> /\ l' = 0
-           /\ UNCHANGED <<cfg, es, ps, ring, hist, phase, iters, inphase, tid>>
+           /\ UNCHANGED <<cfg, es, ps, ring, hist, phase, iters, inphase, stats, tid>>
 TNext == TRow \/ TSnap \/ TReject
 TSpec == TInit /\ [][TNext]_vars
 
